@@ -162,3 +162,95 @@ def c_dissidx(ctx, it, cfg):
 # a field the schema does not know (a cached width, say) makes them undecided, this stand-in still sees the value the real code gave it.
 REG.contract('bounded-history/getDTEuler', [T + 'getDTEuler', T + '__init__', T + 'reset', T + 'createBackup', T + 'revert', T + 'changeSizeClasses', T + 'addSizeClasses', T + 'UpdatePBMEuler'],
              configs=history_configs(2, 3), bounded='operation sequences of length <= 2 (quick) / <= 3 (thorough) from the real constructor; arguments symbolic')(with_history(c_getdt))
+
+
+# ---------------------------------------------------------------------------------------------------
+# the second anchored file: the grain-growth model drives the same transport routines; its step limit must come from the growth field that
+# actually moves the grains and from the dissolution index of the CURRENT grid
+GG = 'kawin.precipitation.coupling.GrainGrowth'
+
+
+@REG.contract('GrainGrowthModel/transport-wiring', [GG + ':GrainGrowthModel.getdXdt', GG + ':GrainGrowthModel.correctdXdt', GG + ':GrainGrowthModel.getDt',
+              GG + ':GrainGrowthModel.postProcess', GG + ':GrainGrowthModel.grainGrowth', GG + ':GrainGrowthModel.constrainedGrowth'])
+def c_gg_wiring(ctx, it, cfg):
+    g = it.get(GG, 'GrainGrowthModel')()                      # real constructor: every field has the value the real code gives it
+    n = integer(ctx, 'nb', lambda v: v >= 2)
+    log = []
+    bounds = array(ctx, 'bounds', (n + 1,), fact=lambda v, i: v > 0)
+
+    class PBMStub(object):
+        """PopulationBalanceModel as this caller sees it: the transport contracts proved above, here recorded calls with arbitrary results"""
+        PSDbounds = bounds
+
+        def __init__(self):
+            self.PSD = array(ctx, 'PSD0', (n,), fact=lambda v, i: v >= 0)
+            self.grid = 0
+
+        def SecondMomentFromN(self, x): return real(ctx, 'M2', lambda v: v > 0)
+        def FirstMomentFromN(self, x): return real(ctx, 'M1', lambda v: v > 0)
+        def ThirdMomentFromN(self, x): return real(ctx, 'M3', lambda v: v > 0)
+        def ZeroMomentFromN(self, x): return real(ctx, 'M0', lambda v: v > 0)
+        def ThirdMoment(self): return real(ctx, 'M3s', lambda v: v > 0)
+
+        def getdXdtEuler(self, flux, nucRate, nucRadius, psd):
+            log.append(('getdXdt', flux, nucRate, nucRadius, psd))
+            return 'rate'
+
+        def correctdXdtEuler(self, dt, flux, nucRate, nucRadius, psd):
+            log.append(('correct', dt, flux, nucRate, nucRadius, psd))
+            return 'corrected'
+
+        def getDTEuler(self, currDT, growth, dissolutionIndex, maxBinRatio=0.4):
+            log.append(('getDT', currDT, growth, dissolutionIndex))
+            return real(ctx, 'dt_limit')
+
+        def UpdatePBMEuler(self, time, x):
+            log.append(('update', time, x))
+
+        def adjustSizeClassesEuler(self, check):
+            self.grid += 1                                      # the grid may have been re-meshed here
+            log.append(('adjust', check))
+
+        def getDissolutionIndex(self, maxDissolution, minIndex=0):
+            k = integer(ctx, 'dissolution_index_on_grid%d' % self.grid, lambda v: v >= 0)
+            log.append(('dissidx', self.grid, k))
+            return k
+    pbm = PBMStub()
+    g.fields['pbm'] = pbm
+    g.fields['_z'] = real(ctx, 'z', lambda v: v >= 0)
+    for k in ('alpha', 'M', 'gbe'):
+        g.fields[k] = real(ctx, k, lambda v: v > 0)
+    g.fields['dissolutionIndex'] = d0 = integer(ctx, 'd0', lambda v: v >= 0)
+    g.fields['finalTime'] = tf = real(ctx, 'finalTime')
+    g.fields['time'] = NP.array([real(ctx, 'tcur')])
+    g.fields['avgR'] = NP.array([real(ctx, 'avgR0')])
+    g.fields['couplingModels'] = []
+    x = array(ctx, 'x', (n,), fact=lambda v, i: v >= 0)
+    r = g.getdXdt(real(ctx, 't'), [x])
+    moved = [e for e in log if e[0] == 'getdXdt']
+    ctx.prove('transport-called-once-on-the-given-distribution-without-nucleation', len(moved) == 1 and moved[0][4] is x and eq(moved[0][2], 0) is True and r == ['rate'])
+    field = moved[0][1]
+    aMg = g.fields['alpha'] * g.fields['M'] * g.fields['gbe']
+    # the field handed to the transport is the Zener-constrained one: zero inside the pinned window, reduced in magnitude outside
+    z = g.fields['_z']
+    un = g.grainGrowth(x)
+    forall(ctx, 'grains-move-with-the-pinned-growth-rate', 0, n + 1,
+           lambda i: eq(field.get(i), ite(un.get(i) - aMg * z > 0, un.get(i) - aMg * z, ite(un.get(i) + aMg * z < 0, un.get(i) + aMg * z, 0))))
+    dxdt = ['rate']
+    g.correctdXdt(real(ctx, 'dt'), [x], dxdt)
+    cor = [e for e in log if e[0] == 'correct']
+    ctx.prove('correction-uses-the-field-that-moved-the-grains', len(cor) == 1 and cor[0][2] is field and dxdt == ['corrected'])
+    g.getDt(dxdt)
+    lim = [e for e in log if e[0] == 'getDT']
+    ctx.prove('step-limit-from-the-field-that-moves-the-grains', len(lim) == 1 and lim[0][2] is field)
+    ctx.prove('step-limit-with-the-current-dissolution-index-and-remaining-time', len(lim) == 1 and eq(lim[0][3], d0) and eq(lim[0][1], tf - g.fields['time'].get(0)))
+    # after the step: the dissolution index kept for the next step limit is the one of the grid AFTER the automatic adjustment
+    del log[:]
+    tnew = real(ctx, 't_new')
+    g.postProcess(tnew, [x])
+    kinds = [e[0] for e in log]
+    ctx.prove('postProcess-order: update, adjust grid, dissolution index', kinds[:2] == ['update', 'adjust'] and 'dissidx' in kinds)
+    last = [e for e in log if e[0] == 'dissidx'][-1]
+    ctx.prove('dissolution-index-refers-to-the-adjusted-grid', last[1] == pbm.grid and eq(g.fields['dissolutionIndex'], last[2]))
+    ctx.prove('time-recorded', eq(g.fields['time'].get(1), tnew))
+    ctx.prove('canary/unpinned-field', eq(field.get(0), un.get(0)), expect='refuted')
